@@ -1,4 +1,4 @@
-(** Model of internal/git/changes.go as of /repo HEAD (after fixes 4dd7734 and d9e7954): parsing of the
+(** Model of internal/git/changes.go as of /repo HEAD (after fixes 4dd7734, d9e7954 and e81cbba): parsing of the
     `git log --reverse --no-merges --first-parent --format=%H --name-status base..HEAD` text, path unquoting, the fold
     building the per-file change list ([getChangeByPath], [changesWithout]), and the finalisation
     (before/after type and body selection, the switch assigning ModifiedLines).
@@ -170,11 +170,15 @@ Section Git.
     else if (Ascii.eqb s (st "D") || Ascii.eqb s (st "R") || Ascii.eqb s (st "M") || Ascii.eqb s (st "T"))%bool then le_src e
     else "".
 
+  (** fix e81cbba: `if status == FileCopied { prev = nil }` -- a copy leaves its source in place, the source keeps its own
+      record and the new file starts a record of its own *)
+  Definition is_copy (e : entry) : bool := Ascii.eqb (le_status e) (st "C").
+
   Definition step (changes : list change) (e : entry) : list change :=
     if negb (allowed (le_dst e)) then changes
     else if is_dir (le_dst e) then changes
     else
-      match get_change_by_path changes (le_src e) with
+      match (if is_copy e then None else get_change_by_path changes (le_src e)) with
       | Some prev =>
         changes_without changes (le_src e) ++
           [{| ch_status := le_status e; ch_before := ch_before prev; ch_after := le_dst e;
